@@ -184,7 +184,9 @@ DoReportApply(i, pref) ==
   /\ Ghosts
   /\ IF RecheckAtApply /\ Stale(r.c, r.e) THEN
        /\ GroupSame /\ UNCHANGED <<tmr, fo, armed, good>>
-       /\ obs' = [a |-> "ReportApply", err |-> IF exists THEN "stale" ELSE "nogroup"]
+       \* (also when the group is gone: the request holds the closed group object, whose epoch moved
+       \* with the removal of its last member)
+       /\ obs' = [a |-> "ReportApply", err |-> "stale"]
      ELSE IF ~exists THEN
        \* the group object the request holds is closed: nothing visible happens
        /\ GroupSame /\ UNCHANGED <<tmr, fo, armed, good>>
